@@ -67,6 +67,32 @@ def gen_tangent(rng):
     return {"k": "c11.tangent", "c0": c0, "c1": c1, "p": p, "theta": rng.uniform(-7, 7), "ratio": ratio}
 
 
+# translator tie: the straight-line functions of geom2/circle2.rs are regenerated on every run and proved (by conversion) to be
+# the model's functions on the same circle / arc; the generated records differ from the model's only in names and in carrying the
+# cached bounding box
+_CC = "(@mkCirc N (Circle2_center s) (Ball_radius (Circle2_ball s)))"
+_AA = "(@mkArc N (@mkCirc N (Circle2_center (Arc2_circle a)) (Ball_radius (Circle2_ball (Arc2_circle a)))) (Arc2_angle0 a) (Arc2_angle a))"
+_Q = "forall (N : EG.Num.Num.Num) "
+SPECS = [dict(rust="src/geom2/circle2.rs", gen="Circle2", model="Model.Circle", types="Model.Types Model.Circle", fns=[],
+              aux=["Arc2_center", "Arc2_radius"], fields=["Circle2", "Arc2"], extra_structs={"Ball": [("radius", "f64")]}, stmts={
+    "Circle2_point_at_angle": _Q + "(s : @Circle2 N) t, @{G}.Circle2_point_at_angle N s t = @{M}.point_at_angle N %s t" % _CC,
+    "Circle2_project_point_to_perimeter": _Q + "(s : @Circle2 N) p, @{G}.Circle2_project_point_to_perimeter N s p = @{M}.project_to_perimeter N %s p" % _CC,
+    "Circle2_angle_of_point": _Q + "(s : @Circle2 N) p, @{G}.Circle2_angle_of_point N s p = @{M}.angle_of_point N %s p" % _CC,
+    "Circle2_distance_to": _Q + "(s : @Circle2 N) p, @{G}.Circle2_distance_to N s p = @{M}.circ_distance N %s p" % _CC,
+    "Circle2_tangent_points_to": _Q + "(s : @Circle2 N) p, @{G}.Circle2_tangent_points_to N s p = @{M}.tangent_points_to N %s p" % _CC,
+    "Arc2_length": _Q + "(a : @Arc2 N), @{G}.Arc2_length N a = @{M}.arc_length N %s" % _AA,
+    "Arc2_point_at_angle": _Q + "(a : @Arc2 N) t, @{G}.Arc2_point_at_angle N a t = @{M}.arc_point_at_angle N %s t" % _AA,
+    "Arc2_point_at_fraction": _Q + "(a : @Arc2 N) f, @{G}.Arc2_point_at_fraction N a f = @{M}.arc_point_at_fraction N %s f" % _AA,
+    "Arc2_point_at_length": _Q + "(a : @Arc2 N) l, @{G}.Arc2_point_at_length N a l = @{M}.arc_point_at_length N %s l" % _AA,
+    "Arc2_start": _Q + "(a : @Arc2 N), @{G}.Arc2_start N a = @{M}.arc_start N %s" % _AA,
+    "Arc2_end": _Q + "(a : @Arc2 N), @{G}.Arc2_end N a = @{M}.arc_end N %s" % _AA,
+})]
+
+
+def translate():
+    return C.translator_tie(SPECS)
+
+
 def gen_line(rng):
     c0 = rnd_circle(rng)
     ang = rng.uniform(0, 2 * PI)
